@@ -50,8 +50,10 @@ type Case struct {
 	// c07-ws: the JSON text frames sent over the WebSocket connection.
 	Frames []string `json:"frames,omitempty"`
 	Whole  bool     `json:"whole,omitempty"`
-	Repeat int      `json:"repeat,omitempty"`
-	Extra  string   `json:"extra,omitempty"`
+	// OddText (c07): Text is an odd capture of a typed variable; one-sided oracle.
+	OddText bool   `json:"odd_text,omitempty"`
+	Repeat  int    `json:"repeat,omitempty"`
+	Extra   string `json:"extra,omitempty"`
 	// Reply: wire bytes (type Rule.Out) of the handler's reply (c04).
 	Reply     []byte `json:"reply,omitempty"`
 	ReplyJSON string `json:"reply_json,omitempty"`
